@@ -25,7 +25,8 @@ func SizeOk(n int) (bool, int64) {
 		return true, 0
 	}
 	free := FreeMemory()
-	return ((free >= 0) && ((int64(n) * ObjectSize) < free)), free
+	// n < free/ObjectSize and not n*ObjectSize < free: the product can wrap around for huge n.
+	return ((free >= 0) && (int64(n) < free/ObjectSize)), free
 }
 
 func MustBeOk(n int) {
